@@ -443,6 +443,8 @@ def check (m : Mon) (opl obs : String) : Mon × Option String :=
       (if o.ok ∧ kind = "unfreeze" then orFail (amt ≥ 0 ∧ o.ft == addAt p.ft a0 (-amt)) "site=rwa.unfreeze.effect frozen amount not -amount" else none),
       -- exactly-once notification with the exact parties and amount
       orFail (o.cn == owed) s!"site=rwa.{kind}.notify compliance was told {o.cn}, owed {owed}",
+      -- only a token bound to the compliance contract can notify it
+      (if o.ok ∧ ¬ owed.isEmpty then orFail p.bound s!"site=rwa.{kind}.bound accepted although the token is not bound to the compliance contract" else none),
       -- ... which reaches exactly the modules registered for that hook, once each
       orFail (gotHooks == owedHooks) s!"site=rwa.{kind}.fanout modules received {gotHooks}, owed {owedHooks}",
       -- an accepted holder move / mint consulted every registered verdict module (once)
